@@ -28,38 +28,38 @@ func init() {
 
 // ---------------------------------------------------------------- values
 
-type CV struct {
+type c14CV struct {
 	Kind  string `json:"k"` // int float bool str list map clo
 	I     int64  `json:"i,omitempty"`
 	FBits uint64 `json:"f,omitempty"`
 	B     bool   `json:"b,omitempty"`
 	S     string `json:"s,omitempty"`
-	Items []*CV  `json:"items,omitempty"`
+	Items []*c14CV  `json:"items,omitempty"`
 	Keys  []string `json:"keys,omitempty"`
 	Repr  string `json:"repr,omitempty"` // list: eager lazy append concat; map: listmap real put
 	Arity int    `json:"arity,omitempty"`
 }
 
-func cInt(i int64) *CV     { return &CV{Kind: "int", I: i} }
-func cFloat(f float64) *CV { return &CV{Kind: "float", FBits: math.Float64bits(f)} }
-func cStr(s string) *CV    { return &CV{Kind: "str", S: s} }
-func cBool(b bool) *CV     { return &CV{Kind: "bool", B: b} }
-func cList(repr string, items ...*CV) *CV {
-	return &CV{Kind: "list", Repr: repr, Items: items}
+func c14CInt(i int64) *c14CV     { return &c14CV{Kind: "int", I: i} }
+func c14CFloat(f float64) *c14CV { return &c14CV{Kind: "float", FBits: math.Float64bits(f)} }
+func c14CStr(s string) *c14CV    { return &c14CV{Kind: "str", S: s} }
+func c14CBool(b bool) *c14CV     { return &c14CV{Kind: "bool", B: b} }
+func c14CList(repr string, items ...*c14CV) *c14CV {
+	return &c14CV{Kind: "list", Repr: repr, Items: items}
 }
-func cMap(repr string, kv ...any) *CV {
-	m := &CV{Kind: "map", Repr: repr}
+func c14CMap(repr string, kv ...any) *c14CV {
+	m := &c14CV{Kind: "map", Repr: repr}
 	for i := 0; i+1 < len(kv); i += 2 {
 		m.Keys = append(m.Keys, kv[i].(string))
-		m.Items = append(m.Items, kv[i+1].(*CV))
+		m.Items = append(m.Items, kv[i+1].(*c14CV))
 	}
 	return m
 }
-func cClo(n int) *CV { return &CV{Kind: "clo", Arity: n} }
+func c14CClo(n int) *c14CV { return &c14CV{Kind: "clo", Arity: n} }
 
-func (t *CV) F() float64 { return math.Float64frombits(t.FBits) }
+func (t *c14CV) F() float64 { return math.Float64frombits(t.FBits) }
 
-func (t *CV) Build() value.Value {
+func (t *c14CV) Build() value.Value {
 	switch t.Kind {
 	case "int":
 		return value.Int(t.I)
@@ -121,7 +121,7 @@ func (t *CV) Build() value.Value {
 	panic("bad kind " + t.Kind)
 }
 
-func (t *CV) Depth() int {
+func (t *c14CV) Depth() int {
 	d := 0
 	for _, it := range t.Items {
 		if x := it.Depth(); x > d {
@@ -134,14 +134,14 @@ func (t *CV) Depth() int {
 	return 0
 }
 
-func (t *CV) Walk(f func(*CV)) {
+func (t *c14CV) Walk(f func(*c14CV)) {
 	f(t)
 	for _, it := range t.Items {
 		it.Walk(f)
 	}
 }
 
-func (t *CV) Human() string {
+func (t *c14CV) Human() string {
 	switch t.Kind {
 	case "int":
 		return fmt.Sprint(t.I)
@@ -183,9 +183,9 @@ func (t *CV) Human() string {
 	return r
 }
 
-func coqZ(i int64) string { return fmt.Sprintf("(%d)%%Z", i) }
+func c14CoqZ(i int64) string { return fmt.Sprintf("(%d)%%Z", i) }
 
-func coqFloat(f float64) string {
+func c14CoqFloat(f float64) string {
 	switch {
 	case math.IsNaN(f):
 		return "FNaN"
@@ -215,10 +215,10 @@ func coqFloat(f float64) string {
 	if math.Signbit(f) {
 		m = -m
 	}
-	return fmt.Sprintf("(FFin %s %s)", coqZ(m), coqZ(e))
+	return fmt.Sprintf("(FFin %s %s)", c14CoqZ(m), c14CoqZ(e))
 }
 
-func coqClo(arity int) string {
+func c14CoqClo(arity int) string {
 	ps := make([]string, arity)
 	for i := range ps {
 		ps[i] = fmt.Sprintf("[%d]", 120+i)
@@ -229,19 +229,19 @@ func coqClo(arity int) string {
 // Coq term (Sem.Syntax.value) of a runtime value; sorted = map entries by key (results, where only the
 // content matters), otherwise in the iteration order of the value (operands: the model visits entries
 // in this order)
-func coqOfValue(v value.Value, sorted bool) string {
+func c14CoqOfValue(v value.Value, sorted bool) string {
 	st := funcGen.NewEmptyStack[value.Value]()
 	switch x := v.(type) {
 	case value.Int:
-		return "(VInt " + coqZ(int64(x)) + ")"
+		return "(VInt " + c14CoqZ(int64(x)) + ")"
 	case value.Float:
-		return "(VFloat " + coqFloat(float64(x)) + ")"
+		return "(VFloat " + c14CoqFloat(float64(x)) + ")"
 	case value.String:
 		return "(VStr " + CoqStr(string(x)) + ")"
 	case value.Bool:
 		return "(VBool " + CoqBool(bool(x)) + ")"
 	case value.Closure:
-		return coqClo(x.Args)
+		return c14CoqClo(x.Args)
 	case *value.List:
 		sl, err := x.ToSlice(st)
 		if err != nil {
@@ -249,14 +249,14 @@ func coqOfValue(v value.Value, sorted bool) string {
 		}
 		parts := make([]string, len(sl))
 		for i, it := range sl {
-			parts[i] = coqOfValue(it, sorted)
+			parts[i] = c14CoqOfValue(it, sorted)
 		}
 		return "(VList " + CoqList(parts) + ")"
 	case value.Map:
 		type kv struct{ k, t string }
 		var es []kv
 		x.Iter(func(k string, v value.Value) bool {
-			es = append(es, kv{k, coqOfValue(v, sorted)})
+			es = append(es, kv{k, c14CoqOfValue(v, sorted)})
 			return true
 		})
 		if sorted {
@@ -273,7 +273,7 @@ func coqOfValue(v value.Value, sorted bool) string {
 
 // the pool term: maps in the iteration order of the built value, except Go maps (random order), which
 // are printed in the order of the description
-func (t *CV) Coq() string {
+func (t *c14CV) Coq() string {
 	switch t.Kind {
 	case "list":
 		parts := make([]string, len(t.Items))
@@ -303,14 +303,14 @@ func (t *CV) Coq() string {
 		}
 		return "(VMap " + CoqList(parts) + ")"
 	case "clo":
-		return coqClo(t.Arity)
+		return c14CoqClo(t.Arity)
 	}
-	return coqOfValue(t.Build(), false)
+	return c14CoqOfValue(t.Build(), false)
 }
 
-func (t *CV) hasNaN() bool {
+func (t *c14CV) hasNaN() bool {
 	r := false
-	t.Walk(func(x *CV) {
+	t.Walk(func(x *c14CV) {
 		if x.Kind == "float" && math.IsNaN(x.F()) {
 			r = true
 		}
@@ -320,80 +320,80 @@ func (t *CV) hasNaN() bool {
 
 // ---------------------------------------------------------------- pool
 
-const two53 = int64(1) << 53
+const c14Two53 = int64(1) << 53
 
-type poolEntry struct {
-	v    *CV
+type c14PoolEntry struct {
+	v    *c14CV
 	core bool // member of the subset whose triples are enumerated exhaustively in the quick tier
 }
 
-func curatedPool() []poolEntry {
-	var p []poolEntry
-	add := func(core bool, vs ...*CV) {
+func c14CuratedPool() []c14PoolEntry {
+	var p []c14PoolEntry
+	add := func(core bool, vs ...*c14CV) {
 		for _, v := range vs {
-			p = append(p, poolEntry{v, core})
+			p = append(p, c14PoolEntry{v, core})
 		}
 	}
 	// ints around 0, +-1, +-(2^53-1), 2^53
-	add(true, cInt(0), cInt(1), cInt(-1), cInt(2), cInt(two53-1), cInt(-(two53 - 1)), cInt(two53))
-	add(false, cInt(-2), cInt(3), cInt(7), cInt(-two53), cInt(two53-2))
+	add(true, c14CInt(0), c14CInt(1), c14CInt(-1), c14CInt(2), c14CInt(c14Two53-1), c14CInt(-(c14Two53 - 1)), c14CInt(c14Two53))
+	add(false, c14CInt(-2), c14CInt(3), c14CInt(7), c14CInt(-c14Two53), c14CInt(c14Two53-2))
 	// floats: +-0, infinities, NaN, values equal and adjacent to ints, halves
-	add(true, cFloat(0), cFloat(math.Copysign(0, -1)), cFloat(1), cFloat(-1), cFloat(0.5), cFloat(1.5), cFloat(2),
-		cFloat(float64(two53-1)), cFloat(float64(two53)), cFloat(math.Inf(1)), cFloat(math.Inf(-1)), cFloat(math.NaN()))
-	add(false, cFloat(-0.5), cFloat(-1.5), cFloat(2.5), cFloat(3), cFloat(-float64(two53-1)), cFloat(float64(two53-2)),
-		cFloat(math.Nextafter(1, 2)), cFloat(math.Nextafter(1, 0)), cFloat(5e-324), cFloat(math.MaxFloat64), cFloat(-float64(two53)))
+	add(true, c14CFloat(0), c14CFloat(math.Copysign(0, -1)), c14CFloat(1), c14CFloat(-1), c14CFloat(0.5), c14CFloat(1.5), c14CFloat(2),
+		c14CFloat(float64(c14Two53-1)), c14CFloat(float64(c14Two53)), c14CFloat(math.Inf(1)), c14CFloat(math.Inf(-1)), c14CFloat(math.NaN()))
+	add(false, c14CFloat(-0.5), c14CFloat(-1.5), c14CFloat(2.5), c14CFloat(3), c14CFloat(-float64(c14Two53-1)), c14CFloat(float64(c14Two53-2)),
+		c14CFloat(math.Nextafter(1, 2)), c14CFloat(math.Nextafter(1, 0)), c14CFloat(5e-324), c14CFloat(math.MaxFloat64), c14CFloat(-float64(c14Two53)))
 	// strings incl. empty, prefix pairs, non-ASCII, astral, NUL
-	add(true, cStr(""), cStr("a"), cStr("ab"), cStr("b"), cStr("ä"))
-	add(false, cStr("A"), cStr("1"), cStr("aä"), cStr("\U0001f600"), cStr("￿"), cStr("\x00"), cStr("true"))
+	add(true, c14CStr(""), c14CStr("a"), c14CStr("ab"), c14CStr("b"), c14CStr("ä"))
+	add(false, c14CStr("A"), c14CStr("1"), c14CStr("aä"), c14CStr("\U0001f600"), c14CStr("￿"), c14CStr("\x00"), c14CStr("true"))
 	// bools
-	add(true, cBool(true))
-	add(false, cBool(false))
+	add(true, c14CBool(true))
+	add(false, c14CBool(false))
 	// lists: empty, numerically equal in different representations, nested, with incomparable elements
-	add(true, cList("eager", cInt(1)))
-	add(false, cList("eager"), cList("lazy"), cList("lazy", cFloat(1)), cList("eager", cInt(2)),
-		cList("eager", cInt(1), cInt(2)), cList("concat", cFloat(1), cInt(2)), cList("append", cInt(1), cFloat(2)),
-		cList("eager", cInt(2), cInt(1)), cList("eager", cInt(1), cInt(2), cInt(3)), cList("lazy", cInt(2), cInt(3)),
-		cList("eager", cList("eager", cInt(1)), cList("eager", cInt(2))), cList("lazy", cList("lazy", cFloat(1)), cList("eager", cInt(2))),
-		cList("eager", cInt(1), cStr("a")), cList("eager", cStr("a"), cInt(1)), cList("eager", cStr("a")), cList("lazy", cStr("a")),
-		cList("eager", cInt(1), cStr("x")), cList("eager", cInt(2), cInt(1), cInt(0)),
-		cList("eager", cFloat(math.NaN())), cList("eager", cList("eager")), cList("eager", cMap("listmap", "a", cInt(1))),
-		cList("lazy", cMap("put", "a", cFloat(1))), cList("eager", cBool(true)), cList("eager", cClo(1)))
+	add(true, c14CList("eager", c14CInt(1)))
+	add(false, c14CList("eager"), c14CList("lazy"), c14CList("lazy", c14CFloat(1)), c14CList("eager", c14CInt(2)),
+		c14CList("eager", c14CInt(1), c14CInt(2)), c14CList("concat", c14CFloat(1), c14CInt(2)), c14CList("append", c14CInt(1), c14CFloat(2)),
+		c14CList("eager", c14CInt(2), c14CInt(1)), c14CList("eager", c14CInt(1), c14CInt(2), c14CInt(3)), c14CList("lazy", c14CInt(2), c14CInt(3)),
+		c14CList("eager", c14CList("eager", c14CInt(1)), c14CList("eager", c14CInt(2))), c14CList("lazy", c14CList("lazy", c14CFloat(1)), c14CList("eager", c14CInt(2))),
+		c14CList("eager", c14CInt(1), c14CStr("a")), c14CList("eager", c14CStr("a"), c14CInt(1)), c14CList("eager", c14CStr("a")), c14CList("lazy", c14CStr("a")),
+		c14CList("eager", c14CInt(1), c14CStr("x")), c14CList("eager", c14CInt(2), c14CInt(1), c14CInt(0)),
+		c14CList("eager", c14CFloat(math.NaN())), c14CList("eager", c14CList("eager")), c14CList("eager", c14CMap("listmap", "a", c14CInt(1))),
+		c14CList("lazy", c14CMap("put", "a", c14CFloat(1))), c14CList("eager", c14CBool(true)), c14CList("eager", c14CClo(1)))
 	// maps in three representations, same content in different key order, nested, incomparable entries
-	add(true, cMap("listmap", "a", cInt(1)))
-	add(false, cMap("listmap"), cMap("real"), cMap("real", "a", cInt(1)), cMap("put", "a", cFloat(1)),
-		cMap("listmap", "a", cInt(2)), cMap("listmap", "b", cInt(1)),
-		cMap("listmap", "a", cInt(1), "b", cInt(2)), cMap("listmap", "b", cFloat(2), "a", cInt(1)), cMap("put", "a", cInt(1), "b", cInt(2)),
-		cMap("listmap", "a", cInt(1), "b", cInt(3)),
-		cMap("real", "r1", cInt(1), "r2", cFloat(2)), cMap("listmap", "r2", cInt(2), "r1", cFloat(1)), cMap("put", "r1", cInt(1), "r2", cInt(3)),
-		cMap("listmap", "a", cInt(1), "b", cStr("x")), cMap("listmap", "b", cInt(1), "a", cInt(2)), cMap("put", "b", cStr("x"), "a", cInt(1)),
-		cMap("listmap", "m", cMap("listmap", "a", cInt(1), "b", cStr("x"))), cMap("listmap", "m", cMap("listmap", "b", cInt(1), "a", cInt(2))),
-		cMap("listmap", "a", cList("eager", cInt(1))), cMap("put", "a", cList("lazy", cFloat(1))),
-		cMap("listmap", "", cInt(0)), cMap("listmap", "ä", cStr("ä")), cMap("listmap", "a", cFloat(math.NaN())), cMap("listmap", "a", cClo(1)))
+	add(true, c14CMap("listmap", "a", c14CInt(1)))
+	add(false, c14CMap("listmap"), c14CMap("real"), c14CMap("real", "a", c14CInt(1)), c14CMap("put", "a", c14CFloat(1)),
+		c14CMap("listmap", "a", c14CInt(2)), c14CMap("listmap", "b", c14CInt(1)),
+		c14CMap("listmap", "a", c14CInt(1), "b", c14CInt(2)), c14CMap("listmap", "b", c14CFloat(2), "a", c14CInt(1)), c14CMap("put", "a", c14CInt(1), "b", c14CInt(2)),
+		c14CMap("listmap", "a", c14CInt(1), "b", c14CInt(3)),
+		c14CMap("real", "r1", c14CInt(1), "r2", c14CFloat(2)), c14CMap("listmap", "r2", c14CInt(2), "r1", c14CFloat(1)), c14CMap("put", "r1", c14CInt(1), "r2", c14CInt(3)),
+		c14CMap("listmap", "a", c14CInt(1), "b", c14CStr("x")), c14CMap("listmap", "b", c14CInt(1), "a", c14CInt(2)), c14CMap("put", "b", c14CStr("x"), "a", c14CInt(1)),
+		c14CMap("listmap", "m", c14CMap("listmap", "a", c14CInt(1), "b", c14CStr("x"))), c14CMap("listmap", "m", c14CMap("listmap", "b", c14CInt(1), "a", c14CInt(2))),
+		c14CMap("listmap", "a", c14CList("eager", c14CInt(1))), c14CMap("put", "a", c14CList("lazy", c14CFloat(1))),
+		c14CMap("listmap", "", c14CInt(0)), c14CMap("listmap", "ä", c14CStr("ä")), c14CMap("listmap", "a", c14CFloat(math.NaN())), c14CMap("listmap", "a", c14CClo(1)))
 	// closures
-	add(false, cClo(1), cClo(2))
+	add(false, c14CClo(1), c14CClo(2))
 	return p
 }
 
-var smallScalars = []*CV{cInt(0), cInt(1), cInt(2), cFloat(1), cFloat(2), cFloat(0.5), cStr("a"), cStr("b"), cStr(""), cBool(true), cBool(false)}
+var c14SmallScalars = []*c14CV{c14CInt(0), c14CInt(1), c14CInt(2), c14CFloat(1), c14CFloat(2), c14CFloat(0.5), c14CStr("a"), c14CStr("b"), c14CStr(""), c14CBool(true), c14CBool(false)}
 
-func (r *Rng) c14Gen(depth int) *CV {
+func (r *Rng) c14Gen(depth int) *c14CV {
 	k := r.Pick(10)
 	if depth <= 0 {
 		k = r.Pick(6)
 	}
 	switch {
 	case k < 6:
-		return smallScalars[r.Pick(len(smallScalars))]
+		return c14SmallScalars[r.Pick(len(c14SmallScalars))]
 	case k < 8:
 		n := r.Pick(4)
-		t := &CV{Kind: "list", Repr: []string{"eager", "lazy", "append", "concat"}[r.Pick(4)]}
+		t := &c14CV{Kind: "list", Repr: []string{"eager", "lazy", "append", "concat"}[r.Pick(4)]}
 		for i := 0; i < n; i++ {
 			t.Items = append(t.Items, r.c14Gen(depth-1))
 		}
 		return t
 	default:
 		n := r.Pick(4)
-		t := &CV{Kind: "map", Repr: []string{"listmap", "put"}[r.Pick(2)]}
+		t := &c14CV{Kind: "map", Repr: []string{"listmap", "put"}[r.Pick(2)]}
 		for i := 0; i < n; i++ {
 			key := []string{"a", "b", "c", "", "ä"}[r.Pick(5)]
 			dup := false
@@ -415,33 +415,33 @@ func (r *Rng) c14Gen(depth int) *CV {
 
 // twin: the same value by the property's notion of equality, written differently: ints <-> floats,
 // other list/map representation, map entries in another order; with probability pMut one leaf is changed
-func (r *Rng) c14Twin(t *CV, pMut float64) *CV {
+func (r *Rng) c14Twin(t *c14CV, pMut float64) *c14CV {
 	switch t.Kind {
 	case "int":
 		if r.Chance(pMut) {
-			return smallScalars[r.Pick(len(smallScalars))]
+			return c14SmallScalars[r.Pick(len(c14SmallScalars))]
 		}
-		if r.Chance(0.5) && t.I > -two53 && t.I < two53 {
-			return cFloat(float64(t.I))
+		if r.Chance(0.5) && t.I > -c14Two53 && t.I < c14Two53 {
+			return c14CFloat(float64(t.I))
 		}
 		return t
 	case "float":
 		if r.Chance(pMut) {
-			return smallScalars[r.Pick(len(smallScalars))]
+			return c14SmallScalars[r.Pick(len(c14SmallScalars))]
 		}
 		f := t.F()
-		if r.Chance(0.5) && f == math.Trunc(f) && math.Abs(f) < float64(two53) && !(f == 0 && math.Signbit(f)) {
-			return cInt(int64(f))
+		if r.Chance(0.5) && f == math.Trunc(f) && math.Abs(f) < float64(c14Two53) && !(f == 0 && math.Signbit(f)) {
+			return c14CInt(int64(f))
 		}
 		return t
 	case "list":
-		n := &CV{Kind: "list", Repr: []string{"eager", "lazy", "append", "concat"}[r.Pick(4)]}
+		n := &c14CV{Kind: "list", Repr: []string{"eager", "lazy", "append", "concat"}[r.Pick(4)]}
 		for _, it := range t.Items {
 			n.Items = append(n.Items, r.c14Twin(it, pMut))
 		}
 		return n
 	case "map":
-		n := &CV{Kind: "map", Repr: []string{"listmap", "put"}[r.Pick(2)]}
+		n := &c14CV{Kind: "map", Repr: []string{"listmap", "put"}[r.Pick(2)]}
 		perm := r.Perm(len(t.Keys))
 		for _, i := range perm {
 			n.Keys = append(n.Keys, t.Keys[i])
@@ -450,7 +450,7 @@ func (r *Rng) c14Twin(t *CV, pMut float64) *CV {
 		return n
 	}
 	if r.Chance(pMut) {
-		return smallScalars[r.Pick(len(smallScalars))]
+		return c14SmallScalars[r.Pick(len(c14SmallScalars))]
 	}
 	return t
 }
@@ -458,84 +458,84 @@ func (r *Rng) c14Twin(t *CV, pMut float64) *CV {
 // ---------------------------------------------------------------- observations
 
 const (
-	oT = "OT"
-	oF = "OF"
-	oE = "OE"
+	c14OT = "OT"
+	c14OF = "OF"
+	c14OE = "OE"
 )
 
-func obsBool(v value.Value, err error) string {
+func c14ObsBool(v value.Value, err error) string {
 	if err != nil {
-		return oE
+		return c14OE
 	}
 	if b, ok := v.(value.Bool); ok {
 		if b {
-			return oT
+			return c14OT
 		}
-		return oF
+		return c14OF
 	}
-	return "(OV " + coqOfValue(v, true) + ")"
+	return "(OV " + c14CoqOfValue(v, true) + ")"
 }
 
-func obsVal(v value.Value, err error) string {
+func c14ObsVal(v value.Value, err error) string {
 	if err != nil {
-		return oE
+		return c14OE
 	}
-	return "(OV " + coqOfValue(v, true) + ")"
+	return "(OV " + c14CoqOfValue(v, true) + ")"
 }
 
-func obsN(v value.Value, err error) string {
+func c14ObsN(v value.Value, err error) string {
 	if err != nil {
-		return oE
+		return c14OE
 	}
 	if i, ok := v.(value.Int); ok && i >= 0 {
 		return fmt.Sprintf("(ON %d)", int64(i))
 	}
-	return "(OV " + coqOfValue(v, true) + ")"
+	return "(OV " + c14CoqOfValue(v, true) + ")"
 }
 
-var ab = []string{"a", "b"}
-var abc = []string{"a", "b", "c"}
+var c14AB = []string{"a", "b"}
+var c14ABC = []string{"a", "b", "c"}
 
-var pairOps = []string{"=", "!=", "<", ">", "<=", ">="}
+var c14PairOps = []string{"=", "!=", "<", ">", "<=", ">="}
 
 // the observations of one direction of a pair: = != < > <= >= min max switch order
-func dirObs(a, b *CV) []string {
+func c14DirObs(a, b *c14CV) []string {
 	var o []string
-	for _, op := range pairOps {
-		o = append(o, obsBool(evalExpr("a"+op+"b", ab, a.Build(), b.Build())))
+	for _, op := range c14PairOps {
+		o = append(o, c14ObsBool(evalExpr("a"+op+"b", c14AB, a.Build(), b.Build())))
 	}
-	o = append(o, obsVal(evalExpr("min(a,b)", ab, a.Build(), b.Build())))
-	o = append(o, obsVal(evalExpr("max(a,b)", ab, a.Build(), b.Build())))
-	o = append(o, obsN(evalExpr("switch a case b: 1 default 0", ab, a.Build(), b.Build())))
-	o = append(o, obsVal(evalExpr("[a,b].order(x->x)", ab, a.Build(), b.Build())))
+	o = append(o, c14ObsVal(evalExpr("min(a,b)", c14AB, a.Build(), b.Build())))
+	o = append(o, c14ObsVal(evalExpr("max(a,b)", c14AB, a.Build(), b.Build())))
+	o = append(o, c14ObsN(evalExpr("switch a case b: 1 default 0", c14AB, a.Build(), b.Build())))
+	o = append(o, c14ObsVal(evalExpr("[a,b].order(x->x)", c14AB, a.Build(), b.Build())))
 	return o
 }
 
-func tripleObs(a, b, c *CV) []string {
-	e3 := func(x string) (value.Value, error) { return evalExpr(x, abc, a.Build(), b.Build(), c.Build()) }
+func c14TripleObs(a, b, c *c14CV) []string {
+	e3 := func(x string) (value.Value, error) { return evalExpr(x, c14ABC, a.Build(), b.Build(), c.Build()) }
 	return []string{
-		obsVal(e3("min(a,b,c)")), obsVal(e3("max(a,b,c)")), obsVal(e3("[a,b,c].min()")), obsVal(e3("[a,b,c].max()")),
-		obsVal(e3("[a,b,c].order(x->x)")), obsN(e3("switch a case b: 1 case c: 2 default 0")),
-		obsBool(evalExpr("a<b", ab, a.Build(), b.Build())), obsBool(evalExpr("a<b", ab, b.Build(), c.Build())), obsBool(evalExpr("a<b", ab, a.Build(), c.Build())),
-		obsBool(evalExpr("a=b", ab, a.Build(), b.Build())), obsBool(evalExpr("a=b", ab, b.Build(), c.Build())), obsBool(evalExpr("a=b", ab, a.Build(), c.Build())),
+		c14ObsVal(e3("min(a,b,c)")), c14ObsVal(e3("max(a,b,c)")), c14ObsVal(e3("[a,b,c].min()")), c14ObsVal(e3("[a,b,c].max()")),
+		c14ObsVal(e3("[a,b,c].order(x->x)")), c14ObsN(e3("switch a case b: 1 case c: 2 default 0")),
+		c14ObsBool(evalExpr("a<b", c14AB, a.Build(), b.Build())), c14ObsBool(evalExpr("a<b", c14AB, b.Build(), c.Build())), c14ObsBool(evalExpr("a<b", c14AB, a.Build(), c.Build())),
+		c14ObsBool(evalExpr("a=b", c14AB, a.Build(), b.Build())), c14ObsBool(evalExpr("a=b", c14AB, b.Build(), c.Build())), c14ObsBool(evalExpr("a=b", c14AB, a.Build(), c.Build())),
 	}
 }
 
-func memObs(a, b *CV) (obs string, present bool) {
+func c14MemObs(a, b *c14CV) (obs string, present bool) {
 	bv := b.Build()
 	present = true
 	if l, ok := bv.(*value.List); ok {
 		present = value.VerifItemsPresent(l)
 	}
-	return obsBool(evalExpr("a~b", ab, a.Build(), bv)), present
+	return c14ObsBool(evalExpr("a~b", c14AB, a.Build(), bv)), present
 }
 
-func negObs(o string) string {
+func c14NegObs(o string) string {
 	switch o {
-	case oT:
-		return oF
-	case oF:
-		return oT
+	case c14OT:
+		return c14OF
+	case c14OF:
+		return c14OT
 	}
 	return o
 }
@@ -546,12 +546,12 @@ type c14Run struct {
 	sum  *Summary
 	cw   *CaseWriter
 	id   int
-	pool []*CV
+	pool []*c14CV
 	term []string // Coq term of pool[i] with sorted maps: identifies which operand min/max/order returned
 	human []string
 }
 
-func kinds(vs ...*CV) string {
+func c14Kinds(vs ...*c14CV) string {
 	ks := make([]string, len(vs))
 	for i, v := range vs {
 		ks[i] = v.Kind
@@ -561,12 +561,12 @@ func kinds(vs ...*CV) string {
 
 func (r *c14Run) nextID() int { r.id++; return r.id }
 
-func (r *c14Run) violation(id int, op, law string, what string, human map[string]any, expected, observed string, vs ...*CV) {
+func (r *c14Run) violation(id int, op, law string, what string, human map[string]any, expected, observed string, vs ...*c14CV) {
 	h := map[string]any{}
 	for k, v := range human {
 		h[k] = v
 	}
-	sig := op + "/" + kinds(vs...) + "/" + law
+	sig := op + "/" + c14Kinds(vs...) + "/" + law
 	h["signature"] = sig
 	r.sum.GoViolations = append(r.sum.GoViolations, GoViolation{CaseID: id, What: what,
 		Sig: sig, Human: h, Expected: expected, Observed: observed})
@@ -575,7 +575,7 @@ func (r *c14Run) violation(id int, op, law string, what string, human map[string
 // the case as kept in summary.json: what is needed to replay it (the operand descriptions), the
 // observation and the signature under which a specification-side failure found by Coq is reported
 func (r *c14Run) record(id int, typ string, defaultSig string, idx []int, desc string) map[string]any {
-	vals := make([]*CV, len(idx))
+	vals := make([]*c14CV, len(idx))
 	hs := make([]string, len(idx))
 	for n, i := range idx {
 		vals[n] = r.pool[i]
@@ -594,9 +594,9 @@ func (r *c14Run) record(id int, typ string, defaultSig string, idx []int, desc s
 }
 
 // which sub-pair makes = asymmetric: descend while a component pair is itself asymmetric
-func symWitness(a, b *CV) (*CV, *CV) {
-	asym := func(x, y *CV) bool {
-		return obsBool(evalExpr("a=b", ab, x.Build(), y.Build())) != obsBool(evalExpr("a=b", ab, y.Build(), x.Build()))
+func c14SymWitness(a, b *c14CV) (*c14CV, *c14CV) {
+	asym := func(x, y *c14CV) bool {
+		return c14ObsBool(evalExpr("a=b", c14AB, x.Build(), y.Build())) != c14ObsBool(evalExpr("a=b", c14AB, y.Build(), x.Build()))
 	}
 	for {
 		found := false
@@ -638,22 +638,22 @@ func (r *c14Run) orderLaw(id int, human map[string]any, oord string, idx []int, 
 	for x := range idx {
 		nan = nan || r.pool[idx[x]].hasNaN()
 		for y := range idx {
-			if x != y && lt(x, y) == oE {
+			if x != y && lt(x, y) == c14OE {
 				anyErr = true
 			}
 		}
 	}
-	vs := make([]*CV, len(idx))
+	vs := make([]*c14CV, len(idx))
 	for n, i := range idx {
 		vs[n] = r.pool[i]
 	}
 	if anyErr {
-		if oord != oE {
+		if oord != c14OE {
 			r.violation(id, "order", "incomparable-is-error", "order answers although < fails on two of the elements", human, "error", oord, vs...)
 		}
 		return
 	}
-	if oord == oE {
+	if oord == c14OE {
 		r.violation(id, "order", "defined", "order fails although < is defined on all elements", human, "a sorted permutation", oord, vs...)
 		return
 	}
@@ -685,7 +685,7 @@ func (r *c14Run) orderLaw(id int, human map[string]any, oord string, idx []int, 
 	}
 	for p := 0; p < len(outIdx); p++ {
 		for q := p + 1; q < len(outIdx); q++ {
-			if lt(outIdx[q], outIdx[p]) == oT {
+			if lt(outIdx[q], outIdx[p]) == c14OT {
 				r.violation(id, "order", "sorted", "order's result has a later element that is < an earlier one", human, "sorted by <", oord, vs...)
 				return
 			}
@@ -704,11 +704,11 @@ func (r *c14Run) pickLaw(id int, human map[string]any, name string, observed str
 		} else {
 			l = lt(cur, n)
 		}
-		if l == oE {
-			exp = oE
+		if l == c14OE {
+			exp = c14OE
 			break
 		}
-		if l == oT {
+		if l == c14OT {
 			cur = n
 		}
 	}
@@ -716,7 +716,7 @@ func (r *c14Run) pickLaw(id int, human map[string]any, name string, observed str
 		exp = "(OV " + r.term[idx[cur]] + ")"
 	}
 	if exp != observed {
-		vs := make([]*CV, len(idx))
+		vs := make([]*c14CV, len(idx))
 		for n, i := range idx {
 			vs[n] = r.pool[i]
 		}
@@ -726,19 +726,19 @@ func (r *c14Run) pickLaw(id int, human map[string]any, name string, observed str
 
 func (r *c14Run) pairCase(i, j int, lt, eq [][]string) {
 	a, b := r.pool[i], r.pool[j]
-	oab := dirObs(a, b)
+	oab := c14DirObs(a, b)
 	oba := oab
 	if i != j {
-		oba = dirObs(b, a)
+		oba = c14DirObs(b, a)
 	}
 	lt[i][j], lt[j][i], eq[i][j], eq[j][i] = oab[2], oba[2], oab[0], oba[0]
 	id := r.nextID()
 	sum := r.sum
 	sum.Evaluations += 2 * len(oab)
 	desc := fmt.Sprintf("= != < > <= >= min max switch order: a,b -> %v ; b,a -> %v", oab, oba)
-	human := r.record(id, "pair", "pair/"+kinds(a, b)+"/spec", []int{i, j}, desc)
+	human := r.record(id, "pair", "pair/"+c14Kinds(a, b)+"/spec", []int{i, j}, desc)
 	r.cw.Add(fmt.Sprintf("CPair %d %d %d %s %s", id, i, j, CoqList(oab), CoqList(oba)))
-	sum.Count("pair_kinds", kinds(a, b))
+	sum.Count("pair_kinds", c14Kinds(a, b))
 	sum.Count("pair_depth", fmt.Sprintf("%d,%d", a.Depth(), b.Depth()))
 	sum.Count("eq_outcome", oab[0])
 	sum.Count("lt_outcome", oab[2])
@@ -756,17 +756,17 @@ func (r *c14Run) pairCase(i, j int, lt, eq [][]string) {
 		}
 		e, ne, l, g, le, ge, sw := o[0], o[1], o[2], o[3], o[4], o[5], o[8]
 		if e != o2[0] && d == 0 {
-			wa, wb := symWitness(x, y)
+			wa, wb := c14SymWitness(x, y)
 			r.violation(id, "=", "symmetry", fmt.Sprintf("a=b is %s but b=a is %s (smallest component pair: %s, %s)", e, o2[0], wa.Human(), wb.Human()), human, e, o2[0], wa, wb)
 		}
-		if ne != negObs(e) {
-			r.violation(id, "!=", "negation", "a!=b is not the negation of a=b", human, negObs(e), ne, x, y)
+		if ne != c14NegObs(e) {
+			r.violation(id, "!=", "negation", "a!=b is not the negation of a=b", human, c14NegObs(e), ne, x, y)
 		}
 		if g != o2[2] {
 			r.violation(id, ">", "flip", "a>b differs from b<a", human, o2[2], g, x, y)
 		}
 		expLe := l
-		if l == oF {
+		if l == c14OF {
 			expLe = e
 		}
 		if le != expLe {
@@ -775,17 +775,17 @@ func (r *c14Run) pairCase(i, j int, lt, eq [][]string) {
 		if ge != o2[4] {
 			r.violation(id, ">=", "flip-le", "a>=b differs from b<=a", human, o2[4], ge, x, y)
 		}
-		if l == oT && o2[2] == oT {
+		if l == c14OT && o2[2] == c14OT {
 			r.violation(id, "<", "asymmetry", "a<b and b<a both hold", human, "not both", "both true", x, y)
 		}
-		expSw := map[string]string{oT: "(ON 1)", oF: "(ON 0)", oE: oE}[e]
+		expSw := map[string]string{c14OT: "(ON 1)", c14OF: "(ON 0)", c14OE: c14OE}[e]
 		if sw != expSw {
 			r.violation(id, "switch", "uses-eq", "switch a case b disagrees with a=b", human, expSw, sw, x, y)
 		}
 		idx := []int{i, j}
 		ltf := func(p, q int) string {
 			if p == q {
-				return oF
+				return c14OF
 			}
 			if p == 0 {
 				return o[2]
@@ -804,31 +804,31 @@ func (r *c14Run) pairCase(i, j int, lt, eq [][]string) {
 }
 
 // x ~ l must be the first decisive answer of x = e over the elements (the implementation's own = answers)
-func firstDecisive(eqs []string) string {
+func c14FirstDecisive(eqs []string) string {
 	for _, e := range eqs {
-		if e != oF {
+		if e != c14OF {
 			return e
 		}
 	}
-	return oF
+	return c14OF
 }
 
 func (r *c14Run) memCase(i, j int) {
 	a, b := r.pool[i], r.pool[j]
-	o, present := memObs(a, b)
+	o, present := c14MemObs(a, b)
 	id := r.nextID()
 	r.sum.Evaluations++
-	human := r.record(id, "mem", "~/"+kinds(a, b)+"/spec", []int{i, j}, "a ~ b -> "+o)
+	human := r.record(id, "mem", "~/"+c14Kinds(a, b)+"/spec", []int{i, j}, "a ~ b -> "+o)
 	r.cw.Add(fmt.Sprintf("CMem %d %d %d %s %s", id, i, j, CoqBool(present), o))
-	r.sum.Count("mem_kinds", kinds(a, b))
+	r.sum.Count("mem_kinds", c14Kinds(a, b))
 	r.sum.Count("mem_outcome", o)
 	if b.Kind == "list" {
 		r.sum.Count("mem_right_list_materialised", fmt.Sprint(present))
 		var eqs []string
 		for _, e := range b.Items {
-			eqs = append(eqs, obsBool(evalExpr("a=b", ab, a.Build(), e.Build())))
+			eqs = append(eqs, c14ObsBool(evalExpr("a=b", c14AB, a.Build(), e.Build())))
 		}
-		if exp := firstDecisive(eqs); exp != o {
+		if exp := c14FirstDecisive(eqs); exp != o {
 			r.violation(id, "~", "member", fmt.Sprintf("x ~ list is %s but the first decisive answer of x = element is %s (answers %v)", o, exp, eqs), human, exp, o, a, b)
 		}
 		if a.Kind != "list" || len(b.Items) > 0 {
@@ -839,29 +839,29 @@ func (r *c14Run) memCase(i, j int) {
 
 func (r *c14Run) mem2Case(i, j, k int, eq [][]string) {
 	a, b, c := r.pool[i], r.pool[j], r.pool[k]
-	o := obsBool(evalExpr("a~[b,c]", abc, a.Build(), b.Build(), c.Build()))
+	o := c14ObsBool(evalExpr("a~[b,c]", c14ABC, a.Build(), b.Build(), c.Build()))
 	id := r.nextID()
 	r.sum.Evaluations++
-	human := r.record(id, "mem2", "~/"+kinds(a)+",list/spec", []int{i, j, k}, "a ~ [b,c] -> "+o)
+	human := r.record(id, "mem2", "~/"+c14Kinds(a)+",list/spec", []int{i, j, k}, "a ~ [b,c] -> "+o)
 	r.cw.Add(fmt.Sprintf("CMem2 %d %d %d %d %s", id, i, j, k, o))
-	if exp := firstDecisive([]string{eq[i][j], eq[i][k]}); exp != o {
-		r.violation(id, "~", "member", fmt.Sprintf("x ~ [y,z] is %s but the first decisive answer of x=y, x=z is %s", o, exp), human, exp, o, a, cList("eager", b, c))
+	if exp := c14FirstDecisive([]string{eq[i][j], eq[i][k]}); exp != o {
+		r.violation(id, "~", "member", fmt.Sprintf("x ~ [y,z] is %s but the first decisive answer of x=y, x=z is %s", o, exp), human, exp, o, a, c14CList("eager", b, c))
 	}
 }
 
 func (r *c14Run) tripleCase(i, j, k int, lt, eq [][]string) int {
 	a, b, c := r.pool[i], r.pool[j], r.pool[k]
-	o := tripleObs(a, b, c)
+	o := c14TripleObs(a, b, c)
 	id := r.nextID()
 	r.sum.Evaluations += len(o)
-	human := r.record(id, "triple", "triple/"+kinds(a, b, c)+"/spec", []int{i, j, k},
+	human := r.record(id, "triple", "triple/"+c14Kinds(a, b, c)+"/spec", []int{i, j, k},
 		fmt.Sprintf("min max l.min l.max order switch a<b b<c a<c a=b b=c a=c -> %v", o))
 	r.cw.Add(fmt.Sprintf("CTriple %d %d %d %d %s", id, i, j, k, CoqList(o)))
-	r.sum.Count("triple_kinds", kinds(a, b, c))
-	if o[6] == oT && o[7] == oT {
+	r.sum.Count("triple_kinds", c14Kinds(a, b, c))
+	if o[6] == c14OT && o[7] == c14OT {
 		r.sum.Count("triple_chain", "a<b<c")
 		r.sum.Nontriv(fmt.Sprintf("triple:%d,%d,%d", i, j, k))
-	} else if o[9] == oT && o[10] == oT {
+	} else if o[9] == c14OT && o[10] == c14OT {
 		r.sum.Count("triple_chain", "a=b=c")
 		r.sum.Nontriv(fmt.Sprintf("triple:%d,%d,%d", i, j, k))
 	} else {
@@ -874,38 +874,38 @@ func (r *c14Run) tripleCase(i, j, k int, lt, eq [][]string) int {
 	r.pickLaw(id, human, "min", o[2], idx, ltf)
 	r.pickLaw(id, human, "max", o[3], idx, ltf)
 	r.orderLaw(id, human, o[4], idx, ltf)
-	expSw := oE
+	expSw := c14OE
 	switch {
-	case eq[i][j] == oT:
+	case eq[i][j] == c14OT:
 		expSw = "(ON 1)"
-	case eq[i][j] == oE:
-	case eq[i][k] == oT:
+	case eq[i][j] == c14OE:
+	case eq[i][k] == c14OT:
 		expSw = "(ON 2)"
-	case eq[i][k] == oF:
+	case eq[i][k] == c14OF:
 		expSw = "(ON 0)"
 	}
 	if o[5] != expSw {
 		r.violation(id, "switch", "first-equal-case", "switch does not take the first case equal to the value", human, expSw, o[5], a, b, c)
 	}
-	if o[6] == oT && o[7] == oT && o[8] != oT {
-		r.violation(id, "<", "transitivity", "a<b and b<c but not a<c", human, oT, o[8], a, b, c)
+	if o[6] == c14OT && o[7] == c14OT && o[8] != c14OT {
+		r.violation(id, "<", "transitivity", "a<b and b<c but not a<c", human, c14OT, o[8], a, b, c)
 	}
-	if o[9] == oT && o[10] == oT && o[11] != oT {
-		r.violation(id, "=", "transitivity", "a=b and b=c but not a=c", human, oT, o[11], a, b, c)
+	if o[9] == c14OT && o[10] == c14OT && o[11] != c14OT {
+		r.violation(id, "=", "transitivity", "a=b and b=c but not a=c", human, c14OT, o[11], a, b, c)
 	}
 	return id
 }
 
-func (r *c14Run) setPool(pool []*CV) {
+func (r *c14Run) setPool(pool []*c14CV) {
 	r.pool = pool
 	r.term = make([]string, len(pool))
 	r.human = make([]string, len(pool))
 	terms := make([]string, len(pool))
 	for i, v := range pool {
-		r.term[i] = coqOfValue(v.Build(), true)
+		r.term[i] = c14CoqOfValue(v.Build(), true)
 		r.human[i] = v.Human()
 		terms[i] = v.Coq()
-		v.Walk(func(x *CV) {
+		v.Walk(func(x *c14CV) {
 			r.sum.Count("pool_node_kinds", x.Kind)
 			if x.Kind == "list" || x.Kind == "map" {
 				r.sum.Count("pool_representations", x.Kind+":"+x.Repr)
@@ -916,7 +916,7 @@ func (r *c14Run) setPool(pool []*CV) {
 	r.cw.prelude = "Definition pool : list value := [\n" + strings.Join(terms, ";\n") + "\n].\n"
 }
 
-func newMatrix(n int) [][]string {
+func c14NewMatrix(n int) [][]string {
 	m := make([][]string, n)
 	for i := range m {
 		m[i] = make([]string, n)
@@ -927,7 +927,7 @@ func newMatrix(n int) [][]string {
 func cmdC14(seed int64, tier, outDir string) {
 	rg := NewRng(seed)
 	sum := NewSummary("C14", seed, tier)
-	sum.Rule = "curated pool (ints around 0, +-1, +-(2^53-1), 2^53; floats +-0, +-inf, NaN, halves, neighbours of ints; strings incl. empty, prefixes, non-ASCII, astral, NUL; bools; nested lists in 4 representations; maps in 3 representations and different key orders; closures) plus random nested values and their numerically-equal twins: ALL unordered pairs x (= != < > <= >= min max switch order in both directions), ALL ordered pairs for ~, triples (exhaustive over the core subset + random) for transitivity, 3-argument min/max/order, 2-case switch, x~[y,z]; operands are rebuilt for every evaluation and passed as arguments to functions generated by value.New(). non-trivial = pair of different kinds or nesting depth >= 2, membership in a non-empty list (or with a non-list left operand), triple with a<b<c or a=b=c; distinct by operand terms"
+	sum.Rule = "curated pool (ints around 0, +-1, +-(2^53-1), 2^53; floats +-0, +-inf, NaN, halves, neighbours of ints; strings incl. empty, prefixes, non-ASCII, astral, NUL; bools; nested lists in 4 representations; maps in 3 representations and different key orders; closures) plus random nested values and their numerically-equal twins: ALL unordered pairs x (= != < > <= >= min max switch order in both directions), ALL ordered pairs for ~, triples (exhaustive over the core subset + random) for transitivity, 3-argument min/max/order, 2-case switch, x~[y,z]; operands are rebuilt for every evaluation and passed as arguments to functions generated by value.New(). non-trivial = pair of different c14Kinds or nesting depth >= 2, membership in a non-empty list (or with a non-list left operand), triple with a<b<c or a=b=c; distinct by operand terms"
 	cw := NewCaseWriter(outDir, "From P2 Require Import Base.Prelude Sem.Num Sem.Syntax Sem.Ops Sem.OpsSpec Run.C14Run.", "c14_case", "c14_id", "(c14_im pool)", "(c14_is pool)", 4000)
 	run := &c14Run{sum: sum, cw: cw}
 	finish := func() {
@@ -941,7 +941,7 @@ func cmdC14(seed int64, tier, outDir string) {
 	if optReplay != "" {
 		var rp struct {
 			Type   string `json:"type"`
-			Values []*CV  `json:"values"`
+			Values []*c14CV  `json:"values"`
 		}
 		var text string
 		if err := json.Unmarshal(loadReplayCase(), &text); err != nil {
@@ -952,12 +952,12 @@ func cmdC14(seed int64, tier, outDir string) {
 		}
 		run.setPool(rp.Values)
 		n := len(rp.Values)
-		lt, eq := newMatrix(n), newMatrix(n)
+		lt, eq := c14NewMatrix(n), c14NewMatrix(n)
 		for i := 0; i < n; i++ {
 			for j := i; j < n; j++ {
 				if rp.Type != "pair" {
 					// only the matrices are needed
-					o1, o2 := dirObs(rp.Values[i], rp.Values[j]), dirObs(rp.Values[j], rp.Values[i])
+					o1, o2 := c14DirObs(rp.Values[i], rp.Values[j]), c14DirObs(rp.Values[j], rp.Values[i])
 					lt[i][j], lt[j][i], eq[i][j], eq[j][i] = o1[2], o2[2], o1[0], o2[0]
 				}
 			}
@@ -979,16 +979,16 @@ func cmdC14(seed int64, tier, outDir string) {
 	}
 
 	// ---- pool: corpus of known-bad operand pairs first, then the curated values, then random ones + twins
-	var pool []*CV
+	var pool []*c14CV
 	var core []int
-	corpus := []*CV{
-		cList("eager", cInt(1)), cList("eager", cList("eager", cInt(1)), cList("eager", cInt(2))), // [1] ~ [[1],[2]]: error, an element equals x
-		cList("eager", cInt(2), cInt(3)), cList("eager", cInt(1), cInt(2), cInt(3)), // [2,3] ~ [1,2,3]: true (containment), no element equals x
-		cMap("listmap", "a", cInt(1), "b", cStr("x")), cMap("listmap", "b", cInt(1), "a", cInt(2)), // = false one way, error the other way
-		cList("eager", cInt(1), cStr("a")), cList("lazy", cStr("a")), // [1,"a"] ~ ["a"]: false if materialised, error if lazy
+	corpus := []*c14CV{
+		c14CList("eager", c14CInt(1)), c14CList("eager", c14CList("eager", c14CInt(1)), c14CList("eager", c14CInt(2))), // [1] ~ [[1],[2]]: error, an element equals x
+		c14CList("eager", c14CInt(2), c14CInt(3)), c14CList("eager", c14CInt(1), c14CInt(2), c14CInt(3)), // [2,3] ~ [1,2,3]: true (containment), no element equals x
+		c14CMap("listmap", "a", c14CInt(1), "b", c14CStr("x")), c14CMap("listmap", "b", c14CInt(1), "a", c14CInt(2)), // = false one way, error the other way
+		c14CList("eager", c14CInt(1), c14CStr("a")), c14CList("lazy", c14CStr("a")), // [1,"a"] ~ ["a"]: false if materialised, error if lazy
 	}
 	seen := map[string]bool{}
-	addPool := func(v *CV, isCore bool) {
+	addPool := func(v *c14CV, isCore bool) {
 		key := v.Human()
 		if seen[key] {
 			return
@@ -1002,7 +1002,7 @@ func cmdC14(seed int64, tier, outDir string) {
 	for _, v := range corpus {
 		addPool(v, false)
 	}
-	for _, e := range curatedPool() {
+	for _, e := range c14CuratedPool() {
 		addPool(e.v, e.core || tier == "thorough" && e.v.Depth() == 0)
 	}
 	sum.Extra["curated_pool_size"] = len(pool)
@@ -1022,7 +1022,7 @@ func cmdC14(seed int64, tier, outDir string) {
 	sum.Extra["core_size"] = len(core)
 	run.setPool(pool)
 	n := len(pool)
-	lt, eq := newMatrix(n), newMatrix(n)
+	lt, eq := c14NewMatrix(n), c14NewMatrix(n)
 
 	for i := 0; i < n; i++ {
 		for j := i; j < n; j++ {
@@ -1060,13 +1060,13 @@ func cmdC14(seed int64, tier, outDir string) {
 	checked, chains := 0, 0
 	for i := 0; i < n; i++ {
 		for j := 0; j < n; j++ {
-			if lt[i][j] != oT && eq[i][j] != oT {
+			if lt[i][j] != c14OT && eq[i][j] != c14OT {
 				continue
 			}
 			for k := 0; k < n; k++ {
 				checked++
-				bad := (lt[i][j] == oT && lt[j][k] == oT && lt[i][k] != oT) || (eq[i][j] == oT && eq[j][k] == oT && eq[i][k] != oT)
-				if lt[i][j] == oT && lt[j][k] == oT || eq[i][j] == oT && eq[j][k] == oT {
+				bad := (lt[i][j] == c14OT && lt[j][k] == c14OT && lt[i][k] != c14OT) || (eq[i][j] == c14OT && eq[j][k] == c14OT && eq[i][k] != c14OT)
+				if lt[i][j] == c14OT && lt[j][k] == c14OT || eq[i][j] == c14OT && eq[j][k] == c14OT {
 					chains++
 				}
 				if bad {
@@ -1081,7 +1081,7 @@ func cmdC14(seed int64, tier, outDir string) {
 	sum.Extra["transitivity_chains_with_both_premises"] = chains
 	errs := 0
 	for _, k := range []string{"eq_outcome", "lt_outcome", "mem_outcome"} {
-		errs += sum.Distribution[k][oE]
+		errs += sum.Distribution[k][c14OE]
 	}
 	sum.Extra["error_outcomes_eq_lt_mem"] = errs
 	finish()
